@@ -936,7 +936,7 @@ fn sl_apply(list: &mut SingleLinkedList<i64>, l: &str) -> String {
 }
 
 fn exec_sl(ops: &[String], obs: &mut Vec<String>) {
-    let mut list: SingleLinkedList<i64> = SingleLinkedList::new();
+    let mut list: SingleLinkedList<i64> = if ops.len() % 2 == 0 { SingleLinkedList::default() } else { SingleLinkedList::new() };
     for (k, l) in ops.iter().enumerate() {
         let ret = sl_apply(&mut list, l);
         // the list has no iterator: its content is read off a copy built by replaying the history
